@@ -19,8 +19,8 @@ Qed.
 
 (* one row: the state of the inner loop after k iterations, in terms of what mul_row still has to do *)
 Definition mul_inner_inv (w : Z) (n : nat) (b : list Z) (i : nat) (ai : Z) (ov0 : bool) (pre sfx0 : list Z)
-           (k : nat) (s : bool * list Z * Z * Z) : Prop :=
-  let '(ov, out, carry, j) := s in
+           (k : nat) (s : list Z * bool * Z * Z) : Prop :=
+  let '(out, ov, carry, j) := s in
   j = Z.of_nat k /\ (k <= n)%nat /\ ov = ov0 /\ length out = n /\ Forall (digit_ok w) out /\ digit_ok w carry /\
   firstn i out = pre /\
   mul_row w ai b sfx0 0 =
@@ -29,9 +29,9 @@ Definition mul_inner_inv (w : Z) (n : nat) (b : list Z) (i : nat) (ai : Z) (ov0 
    snd (mul_row w ai (skipn k b) (skipn (i + k) out) carry)).
 
 Definition mul_inner_post (w : Z) (n : nat) (b : list Z) (i : nat) (ai : Z) (ov0 : bool) (pre sfx0 : list Z)
-           (e : loop_exit (bool * list Z * Z * Z) (list Z * bool)) : Prop :=
+           (e : loop_exit (list Z * bool * Z * Z) (list Z * bool)) : Prop :=
   match e with
-  | Exited (ov, out, carry, j) =>
+  | Exited (out, ov, carry, j) =>
       length out = n /\ Forall (digit_ok w) out /\ firstn i out = pre /\
       exists o, mul_row w ai b sfx0 0 = (skipn i out, carry, o) /\ ov = ov0 || o
   | Returned _ => False
@@ -42,11 +42,11 @@ Lemma loops_long_mul w n a b : 0 < w -> wf w n a -> wf w n b ->
 Proof.
   intros Hw [Ha Fa] [Hb Fb] fuel Hf. unfold Loops.long_mul. rewrite Nat2Z.id.
   apply while_count_bind with (n := n) (k := 0%nat)
-    (Inv := fun k '(ov, out, carry, i) =>
+    (Inv := fun k '(out, ov, carry, i) =>
        i = Z.of_nat k /\ (k <= n)%nat /\ length out = n /\ Forall (digit_ok w) out /\
        long_mul w a b = (firstn k out ++ fst (long_mul_loop w (skipn k a) b (skipn k out) ov),
                          snd (long_mul_loop w (skipn k a) b (skipn k out) ov))).
-  - intros k [[[ov out] carry] i] (-> & Hk & Hlen & Fout & Heq) Hc.
+  - intros k [[[out ov] carry] i] (-> & Hk & Hlen & Fout & Heq) Hc.
     rewrite ltb_of_nat in Hc. apply Nat.ltb_lt in Hc. split; [exact Hc|].
     match goal with |- context [while_loop fuel ?c ?bd ?s0] =>
       assert (W : exists e, while_loop fuel c bd s0 = Done e /\
@@ -54,7 +54,7 @@ Proof.
     end.
     { apply (while_count n (mul_inner_inv w n b k (nth k a 0) ov (firstn k out) (skipn k out))) with (k := 0%nat).
     + (* one inner iteration *)
-      intros j [[[ov' out'] carry'] jz] (-> & Hj & -> & Hlen' & Fout' & Hcar & Hpre & Hrow) Hcj.
+      intros j [[[out' ov'] carry'] jz] (-> & Hj & -> & Hlen' & Fout' & Hcar & Hpre & Hrow) Hcj.
       rewrite ltb_of_nat in Hcj. apply Nat.ltb_lt in Hcj. split; [exact Hcj|].
       rewrite <- Nat2Z.inj_add, ltb_of_nat.
       rewrite (skipn_nth_cons b j) in Hrow by lia.
@@ -96,7 +96,7 @@ Proof.
               rewrite Hrow. cbn [fst snd]. rewrite app_nil_r.
               rewrite firstn_all2 by (rewrite skipn_length; lia). reflexivity.
     + (* inner loop exit: j = n *)
-      intros j [[[ov' out'] carry'] jz] (-> & Hj & -> & Hlen' & Fout' & Hcar & Hpre & Hrow) Hcj.
+      intros j [[[out' ov'] carry'] jz] (-> & Hj & -> & Hlen' & Fout' & Hcar & Hpre & Hrow) Hcj.
       rewrite ltb_of_nat in Hcj. apply Nat.ltb_ge in Hcj. assert (j = n) by lia. subst j.
       unfold mul_inner_post.
       split; [exact Hlen'|]. split; [exact Fout'|]. split; [exact Hpre|].
@@ -113,7 +113,7 @@ Proof.
     + lia. }
     destruct W as (e & He & HQ).
     (* after the inner loop *)
-      rewrite He. cbn [bind]. destruct e as [[[[ov' out'] carry'] jz]|r]; [|contradiction].
+      rewrite He. cbn [bind]. destruct e as [[[[out' ov'] carry'] jz]|r]; [|contradiction].
       destruct HQ as (Hlen' & Fout' & Hpre & o & Hrow & ->).
       rewrite Heq. rewrite (skipn_nth_cons a k) by lia. cbn [long_mul_loop]. rewrite Hrow.
       assert (Hs : skipn k out' = nth k out' 0 :: skipn (S k) out') by (apply skipn_nth_cons; lia).
@@ -129,7 +129,7 @@ Proof.
         rewrite Hpre'. rewrite orb_true_r.
         destruct (long_mul_loop w (skipn (S k) a) b (skipn (S k) out') true) as [r o2].
         cbn [fst snd]. rewrite <- app_assoc. reflexivity.
-  - intros k [[[ov out] carry] i] (-> & Hk & Hlen & Fout & Heq) Hc.
+  - intros k [[[out ov] carry] i] (-> & Hk & Hlen & Fout & Heq) Hc.
     rewrite ltb_of_nat in Hc. apply Nat.ltb_ge in Hc. assert (k = n) by lia. subst k.
     rewrite Heq. rewrite (skipn_all2 a) by lia. cbn [long_mul_loop fst snd].
     rewrite firstn_all2 by lia. rewrite app_nil_r. reflexivity.
